@@ -7,6 +7,7 @@ import ast
 from fractions import Fraction
 
 from sa import model
+from sa import norm
 from sa import universe as unimod
 from sa.model import AnalysisError
 
@@ -530,6 +531,60 @@ def check_units(repo, rep):
                    name, c, got), loc=mod.loc(f.node))
 
 
+def check_zone_construction(repo, rep):
+    """R20d: a fixed-offset zone is built from the *total* length of the
+    offset timespan (seconds(ts) / ts.total_seconds()), never from the
+    `.seconds` / `.days` / `.microseconds` fields of the timedelta (for a
+    negative span `.seconds` is 86400 - x with days = -1)."""
+    mod = repo.module(DT)
+    n = 0
+    for fi in mod.functions.values():
+        for c in model.calls_in(fi.node, shallow=True):
+            d = repo.resolve(mod, c.func, model.scope_locals(fi))
+            if d not in ('dateutil.tz.tzoffset', 'dateutil.tz.tz.tzoffset',
+                         'datetime.timezone'):
+                continue
+            n += 1
+            arg = None
+            if d == 'datetime.timezone':
+                arg = c.args[0] if c.args else None
+            elif len(c.args) > 1:
+                arg = c.args[1]
+            for k in c.keywords:
+                if k.arg in ('offset',):
+                    arg = k.value
+            arg2 = norm.subst_locals(fi.node, arg, only_pure=False) \
+                if arg is not None else None
+            fields = [x for x in ast.walk(arg2) if isinstance(
+                x, ast.Attribute) and x.attr in ('seconds', 'days',
+                                                 'microseconds') and
+                not (isinstance(getattr(x, '_parent', None), ast.Call))] \
+                if arg2 is not None else []
+            # a bare field read (not a call such as ts.total_seconds())
+            bare = []
+            if arg2 is not None:
+                calls_funcs = {id(x.func) for x in ast.walk(arg2)
+                               if isinstance(x, ast.Call)}
+                bare = [x for x in fields if id(x) not in calls_funcs]
+            total = arg2 is not None and any(
+                isinstance(x, ast.Call) and (
+                    (isinstance(x.func, ast.Attribute) and
+                     x.func.attr == 'total_seconds') or
+                    (isinstance(x.func, ast.Name) and x.func.id in UNITS))
+                for x in ast.walk(arg2))
+            ok = arg2 is not None and (total or d == 'datetime.timezone'
+                                       ) and not bare
+            rep.ob('R20d', '%s/zone[%s]' % (fi.key, model.norm(c)[:40]), ok,
+                   'the fixed-offset zone is built from `%s`: it must be '
+                   'the total length of the offset (seconds(offset) / '
+                   'offset.total_seconds()); a timedelta field such as '
+                   '.seconds is wrong for every negative offset (-3h has '
+                   'days=-1, seconds=75600)' % (
+                       model.norm(arg) if arg is not None else 'nothing'),
+                   loc=mod.loc(c), construct=model.norm(c))
+    rep.floor('fixed-offset zone constructions', n, 1)
+
+
 def run(repo, rep):
     rep.rule('R20a', 'INSTANT-PRESERVATION: utc(dt) is the instant W0 - off '
              'at offset zero; timestamp(dt) is (W0 - off) - epoch; '
@@ -554,3 +609,6 @@ def run(repo, rep):
     tz = check_instants(repo, rep, uni)
     check_naive_safety(repo, rep, uni, tz)
     check_units(repo, rep)
+    rep.rule('R20d', 'ZONE-FROM-TOTAL-OFFSET: tz.tzoffset / timezone are '
+             'built from the total seconds of the offset timespan')
+    check_zone_construction(repo, rep)
